@@ -223,3 +223,42 @@ func normaliseError(b []byte) string {
 }
 
 func timeAfterMs(ms int) <-chan time.Time { return time.After(time.Duration(ms) * time.Millisecond) }
+
+// handlerBlocked sends SIGQUIT to the child (which makes the Go runtime print every goroutine and exit) and reads the dump:
+// true when a goroutine inside decideHandler has been parked for at least a minute (chan send / chan receive / select /
+// semacquire / sync.* wait) while no goroutine executing the service's or the library's code is running or runnable.
+// The verdict rests on the runtime's own account of the goroutine states, not on the harness's clock.
+func (s *server) handlerBlocked() (bool, string) {
+	s.truncateLog()
+	s.cmd.Process.Signal(syscall.SIGQUIT)
+	select {
+	case <-s.exited:
+	case <-timeAfterMs(15000):
+	}
+	dump := s.logTail(4 << 20)
+	blocks := strings.Split(dump, "\n\n")
+	parked, busy := "", false
+	re := regexp.MustCompile(`^goroutine \d+ (?:gp=\S+ m=\S+ (?:mp=\S+ )?)?\[([^\],]+)(?:, (\d+) minutes)?`)
+	for _, b := range blocks {
+		m := re.FindStringSubmatch(strings.TrimSpace(b))
+		if m == nil {
+			continue
+		}
+		ours := strings.Contains(b, "main.decideHandler") || strings.Contains(b, "RealDecisionMaker/lib/")
+		if !ours {
+			continue
+		}
+		switch m[1] {
+		case "running", "runnable", "syscall":
+			busy = true
+		default:
+			if m[2] != "" && strings.Contains(b, "main.decideHandler") && parked == "" {
+				if len(b) > 1800 {
+					b = b[:1800]
+				}
+				parked = b
+			}
+		}
+	}
+	return parked != "" && !busy, parked
+}
